@@ -1,4 +1,1162 @@
-//! sqlitetx: not built yet.
-pub fn run(args: &vh_common::Args) {
-    vh_common::unknown(args)
+//! SqliteTx (C10): the transaction permit protocol of `p2panda_store::SqliteStore`
+//! (`begin` / `tx` / `commit` / `rollback` / `impl Drop for TransactionPermit`, the `tx!` macro)
+//! against spec/SqliteTx.
+//!
+//! * `record` (impl -> spec, primary): N writer tasks on a multi-thread tokio runtime run
+//!   transactions against a real SQLite store (in-memory single connection pool and file-backed
+//!   pool) and end them by commit (`tx!` macro and explicit), rollback, dropping the permit, a
+//!   failing statement inside `tx!` (`?` leaves the scope), a panic, cancellation of the task while
+//!   it holds the permit, or cancellation while it is still inside `begin()`. The cfg-guarded hooks
+//!   of `p2panda-store/src/sqlite.rs` log the linearisation points under the held permit
+//!   (`sqlite.acquired`, `sqlite.begin`, `sqlite.commit.*`, `sqlite.rollback.*`,
+//!   `sqlite.auto_rollback.*`) with the sequence number of `p2panda_core::verif::emit`; the
+//!   harness logs its own events through the same counter. The last event is a `SELECT` of all
+//!   rows. `Trace_SqliteTx.tla` must accept the log.
+//! * `replay` (spec -> impl): schedules exported by TLC are forced on a current-thread runtime.
+//!   Every store call is a future polled by hand; the schedule points of the hooks
+//!   (`p2panda_core::verif::point`) park `begin` after the permit was acquired, `commit` /
+//!   `rollback` before the permit is released and the spawned rollback task before it starts and
+//!   before it releases. After every step the implementation must be where the specification
+//!   says: who is parked where, a probe `begin()` acquires the permit iff `sem = 1`, blocked
+//!   `begin()` futures stay pending exactly while the permit is taken, and the committed rows
+//!   read through the pool equal the specification's database.
+use std::collections::BTreeMap;
+use std::future::Future;
+use std::panic::{AssertUnwindSafe, catch_unwind};
+use std::path::PathBuf;
+use std::pin::Pin;
+use std::sync::{Arc, Mutex};
+use std::task::Poll;
+use std::time::{Duration, Instant};
+
+use futures_channel::oneshot;
+use p2panda_core::verif;
+use p2panda_store::sqlite::TransactionPermit;
+use p2panda_store::{SqliteError, SqliteStore, SqliteStoreBuilder, Transaction, tx};
+use vh_common::{Args, Outcome, Rng, TraceWriter, Value, json, read_ndjson, unknown};
+
+/// Watchdog for operations that must complete (no verdict is derived from durations below it;
+/// it only turns a genuine hang into a report instead of a stuck check).
+const WATCHDOG: Duration = Duration::from_secs(120);
+
+pub fn run(args: &Args) {
+    match args.mode.as_str() {
+        "replay" => replay(args),
+        "record" => record(args),
+        _ => unknown(args),
+    }
 }
+
+// ------------------------------------------------------------------------------------------
+// The database under test
+
+const SCHEMA: [&str; 2] = [
+    "CREATE TABLE log(id INTEGER PRIMARY KEY AUTOINCREMENT, w TEXT NOT NULL, t INTEGER NOT NULL, j INTEGER NOT NULL, k TEXT NOT NULL)",
+    "CREATE TABLE kv(k TEXT PRIMARY KEY, w TEXT NOT NULL, t INTEGER NOT NULL, j INTEGER NOT NULL)",
+];
+
+type Row = (String, i64, i64, String); // (writer, transaction, index, key)
+
+struct Db {
+    store: SqliteStore,
+    file: Option<PathBuf>,
+}
+
+impl Db {
+    async fn open(kind: &str, id: u64) -> Db {
+        let (store, file) = match kind {
+            "memory" => (
+                SqliteStoreBuilder::memory().run_default_migrations(false).build().await.expect("in-memory store"),
+                None,
+            ),
+            "file" => {
+                let dir = std::env::current_dir().expect("cwd").join("sqlitetx-db");
+                std::fs::create_dir_all(&dir).expect("db dir");
+                let path = dir.join(format!("c10-{}-{id}.sqlite", std::process::id()));
+                let _ = std::fs::remove_file(&path);
+                let url = format!("sqlite://{}", path.display());
+                let store = SqliteStoreBuilder::new()
+                    .database_url(&url)
+                    .min_connections(1)
+                    .max_connections(4)
+                    .run_default_migrations(false)
+                    .build()
+                    .await
+                    .expect("file-backed store");
+                (store, Some(path))
+            }
+            other => {
+                eprintln!("unknown store kind {other}");
+                std::process::exit(2);
+            }
+        };
+        for stmt in SCHEMA {
+            store
+                .execute(async |pool| {
+                    sqlx::query(stmt).execute(pool).await?;
+                    Ok(())
+                })
+                .await
+                .expect("schema");
+        }
+        Db { store, file }
+    }
+
+    async fn close(self) {
+        self.store.pool().close().await;
+        if let Some(path) = self.file {
+            for suffix in ["", "-journal", "-wal", "-shm"] {
+                let _ = std::fs::remove_file(format!("{}{suffix}", path.display()));
+            }
+        }
+    }
+}
+
+/// One write of a transaction: a row in the append-only `log` table, last-writer-wins in `kv`;
+/// returns the number of `log` rows visible inside the transaction afterwards.
+async fn do_write(store: &SqliteStore, w: &str, t: i64, j: i64, k: &str) -> Result<i64, SqliteError> {
+    let (w, k) = (w.to_string(), k.to_string());
+    store
+        .tx(async move |tx| {
+            sqlx::query("INSERT INTO log (w, t, j, k) VALUES (?, ?, ?, ?)")
+                .bind(&w)
+                .bind(t)
+                .bind(j)
+                .bind(&k)
+                .execute(&mut **tx)
+                .await?;
+            sqlx::query("INSERT OR REPLACE INTO kv (k, w, t, j) VALUES (?, ?, ?, ?)")
+                .bind(&k)
+                .bind(&w)
+                .bind(t)
+                .bind(j)
+                .execute(&mut **tx)
+                .await?;
+            let seen: i64 = sqlx::query_scalar("SELECT COUNT(*) FROM log").fetch_one(&mut **tx).await?;
+            Ok(seen)
+        })
+        .await
+}
+
+/// A statement that fails (the table does not exist) inside the transaction.
+async fn failing_statement(store: &SqliteStore) -> Result<(), SqliteError> {
+    store
+        .tx(async |tx| {
+            sqlx::query("INSERT INTO no_such_table (x) VALUES (1)").execute(&mut **tx).await?;
+            Ok(())
+        })
+        .await
+}
+
+/// Committed rows, read through the pool (not through the transaction).
+async fn read_all(store: &SqliteStore) -> Result<(Vec<Row>, BTreeMap<String, (String, i64, i64)>), SqliteError> {
+    store
+        .execute(async |pool| {
+            let log: Vec<Row> = sqlx::query_as("SELECT w, t, j, k FROM log ORDER BY id").fetch_all(pool).await?;
+            let kv: Vec<(String, String, i64, i64)> = sqlx::query_as("SELECT k, w, t, j FROM kv ORDER BY k").fetch_all(pool).await?;
+            Ok((log, kv.into_iter().map(|(k, w, t, j)| (k, (w, t, j))).collect()))
+        })
+        .await
+}
+
+fn rows_json(rows: &[Row]) -> Value {
+    Value::Array(rows.iter().map(|(w, t, j, k)| json!({"w": w, "t": t, "j": j, "k": k})).collect())
+}
+
+fn kv_json(kv: &BTreeMap<String, (String, i64, i64)>) -> Value {
+    let mut o = serde_json::Map::new();
+    for (k, (w, t, j)) in kv {
+        o.insert(k.clone(), json!({"w": w, "t": t, "j": j}));
+    }
+    Value::Object(o)
+}
+
+/// Last-writer-wins view of a log (what `kv` must hold).
+fn lww(rows: &[Row]) -> BTreeMap<String, (String, i64, i64)> {
+    let mut m = BTreeMap::new();
+    for (w, t, j, k) in rows {
+        m.insert(k.clone(), (w.clone(), *t, *j));
+    }
+    m
+}
+
+fn emit(v: Value) {
+    verif::emit(v.to_string());
+}
+
+// ==========================================================================================
+// record: concurrent writers on a multi-thread runtime
+// ==========================================================================================
+
+#[derive(Clone, Copy, Debug, PartialEq, Eq)]
+enum Ending {
+    /// `tx!(store, { writes })`
+    CommitMacro,
+    /// begin, writes, `commit(permit)`
+    Commit,
+    /// begin, writes, `rollback(permit)`
+    Rollback,
+    /// begin, writes, `drop(permit)`
+    Drop,
+    /// `tx!(store, { writes; failing statement? })`: the `?` leaves the scope with the permit
+    ErrorMacro,
+    /// begin, writes, panic with the permit on the stack
+    Panic,
+    /// begin, writes, the task is aborted while it holds the permit
+    CancelHolding,
+    /// the task is aborted while it is (probably still) inside `begin()`
+    CancelInBegin,
+}
+
+const ENDINGS: [Ending; 11] = [
+    Ending::CommitMacro,
+    Ending::Commit,
+    Ending::Rollback,
+    Ending::Drop,
+    Ending::ErrorMacro,
+    Ending::Panic,
+    Ending::CancelHolding,
+    // cancellation inside begin() has many places to land: weight it
+    Ending::CancelInBegin,
+    Ending::CancelInBegin,
+    Ending::CancelInBegin,
+    Ending::CancelInBegin,
+];
+
+#[derive(Clone, Debug)]
+struct Plan {
+    keys: Vec<String>,
+    ending: Ending,
+    /// numbers of `yield_now` before begin / between writes / before the end
+    yields: Vec<u8>,
+}
+
+/// Emits `TaskGone` when dropped armed: declared *after* the future it guards, hence dropped
+/// *before* it when the task is cancelled, so the event precedes the release of whatever the
+/// cancelled future held.
+struct GoneGuard {
+    w: String,
+    armed: bool,
+}
+
+impl Drop for GoneGuard {
+    fn drop(&mut self) {
+        if self.armed {
+            emit(json!({"ev": "TaskGone", "w": self.w}));
+        }
+    }
+}
+
+async fn yields(n: u8) {
+    for _ in 0..n {
+        tokio::task::yield_now().await;
+    }
+}
+
+fn y(plan: &Plan, i: usize) -> u8 {
+    plan.yields.get(i).copied().unwrap_or(0)
+}
+
+/// Body shared by the two `tx!` endings; the macro's `?` need a function returning `Result`.
+async fn macro_transaction(store: &SqliteStore, w: &str, t: i64, plan: &Plan, fail: bool) -> Result<(), SqliteError> {
+    tx!(store, {
+        emit(json!({"ev": "BeginRet", "w": w, "t": t}));
+        for (j, k) in plan.keys.iter().enumerate() {
+            yields(y(plan, 1 + j)).await;
+            let seen = match do_write(store, w, t, j as i64, k).await {
+                Ok(seen) => seen,
+                Err(e) => {
+                    // unexpected; say that the permit goes away before `return` drops it
+                    emit(json!({"ev": "PermitDrop", "w": w, "t": t, "why": "write-error"}));
+                    return Err(e);
+                }
+            };
+            emit(json!({"ev": "Write", "w": w, "t": t, "j": j, "k": k, "seen": seen}));
+        }
+        yields(y(plan, 9)).await;
+        if fail {
+            // the next statement fails and `?` drops the permit: nothing observable happens in between
+            emit(json!({"ev": "PermitDrop", "w": w, "t": t, "why": "error"}));
+            failing_statement(store).await?;
+        }
+    });
+    Ok(())
+}
+
+/// One transaction of writer `w`, run as its own tokio task.
+async fn transaction_task(
+    store: SqliteStore,
+    w: String,
+    t: i64,
+    plan: Plan,
+    parked: oneshot::Sender<()>,
+) -> Result<(), String> {
+    emit(json!({"ev": "Spawn", "w": w, "task": tokio::task::id().to_string()}));
+    yields(y(&plan, 0)).await;
+    match plan.ending {
+        Ending::CommitMacro => {
+            return macro_transaction(&store, &w, t, &plan, false).await.map_err(|e| format!("tx! failed: {e}"));
+        }
+        Ending::ErrorMacro => {
+            return match macro_transaction(&store, &w, t, &plan, true).await {
+                Err(_) => Ok(()),
+                Ok(()) => Err("the failing statement succeeded".into()),
+            };
+        }
+        _ => {}
+    }
+
+    // explicit begin; `CancelInBegin` tells the supervisor right before calling it
+    let permit = {
+        let begin = store.begin();
+        let mut begin = std::pin::pin!(begin);
+        let mut guard = GoneGuard { w: w.clone(), armed: plan.ending == Ending::CancelInBegin };
+        let mut parked = Some(parked);
+        if plan.ending == Ending::CancelInBegin {
+            let _ = parked.take().unwrap().send(());
+        }
+        let permit = begin.as_mut().await.map_err(|e| format!("begin failed: {e}"))?;
+        guard.armed = false;
+        emit(json!({"ev": "BeginRet", "w": w, "t": t}));
+        (permit, parked)
+    };
+    let (permit, parked) = permit;
+
+    // `CancelInBegin`: the abort is on its way; it may only land inside begin() or at the park
+    // below, so there is no await point in between
+    if plan.ending != Ending::CancelInBegin {
+        for (j, k) in plan.keys.iter().enumerate() {
+            yields(y(&plan, 1 + j)).await;
+            let seen = match do_write(&store, &w, t, j as i64, k).await {
+                Ok(seen) => seen,
+                Err(e) => {
+                    emit(json!({"ev": "PermitDrop", "w": w, "t": t, "why": "write-error"}));
+                    return Err(format!("write failed: {e}"));
+                }
+            };
+            emit(json!({"ev": "Write", "w": w, "t": t, "j": j, "k": k, "seen": seen}));
+        }
+        yields(y(&plan, 9)).await;
+    }
+
+    match plan.ending {
+        Ending::Commit => store.commit(permit).await.map_err(|e| format!("commit failed: {e}")),
+        Ending::Rollback => store.rollback(permit).await.map_err(|e| format!("rollback failed: {e}")),
+        Ending::Drop => {
+            emit(json!({"ev": "PermitDrop", "w": w, "t": t, "why": "drop"}));
+            drop(permit);
+            Ok(())
+        }
+        Ending::Panic => {
+            emit(json!({"ev": "PermitDrop", "w": w, "t": t, "why": "panic"}));
+            let _permit = permit;
+            panic!("writer panics inside its transaction");
+        }
+        Ending::CancelHolding | Ending::CancelInBegin => {
+            // hold the permit until the supervisor aborts this task
+            emit(json!({"ev": "PermitDrop", "w": w, "t": t, "why": "cancel"}));
+            let _permit = permit;
+            if let Some(p) = parked {
+                let _ = p.send(());
+            }
+            std::future::pending::<()>().await;
+            Ok(())
+        }
+        Ending::CommitMacro | Ending::ErrorMacro => unreachable!(),
+    }
+}
+
+/// Logical writer: runs its transactions one after another, each in a task of its own.
+async fn writer(store: SqliteStore, w: String, plans: Vec<Plan>, abort_after: Vec<u8>) -> Vec<String> {
+    let mut problems = Vec::new();
+    for (t, plan) in plans.into_iter().enumerate() {
+        let (parked_tx, parked_rx) = oneshot::channel();
+        let ending = plan.ending;
+        let handle = tokio::spawn(transaction_task(store.clone(), w.clone(), t as i64, plan, parked_tx));
+        if matches!(ending, Ending::CancelHolding | Ending::CancelInBegin) {
+            // wait until the task says it is where it wants to be cancelled (or is gone)
+            let _ = parked_rx.await;
+            yields(abort_after.get(t).copied().unwrap_or(0)).await;
+            handle.abort();
+        }
+        match handle.await {
+            Ok(Ok(())) => {}
+            Ok(Err(e)) => problems.push(format!("{w}/{t}: {e}")),
+            Err(e) if e.is_cancelled() => {}
+            Err(e) if e.is_panic() && ending == Ending::Panic => {}
+            Err(e) => problems.push(format!("{w}/{t}: task failed: {e}")),
+        }
+    }
+    problems
+}
+
+struct RunResult {
+    events: Vec<Value>,
+    problems: Vec<String>,
+    select_error: Option<String>,
+    hung: bool,
+    committed: usize,
+}
+
+fn random_plan(rng: &mut Rng, keys: &[&str]) -> Plan {
+    Plan {
+        keys: (0..rng.below(4)).map(|_| rng.pick(keys).to_string()).collect(),
+        ending: *rng.pick(&ENDINGS),
+        yields: (0..10).map(|_| if rng.chance(1, 2) { 0 } else { rng.below(4) as u8 }).collect(),
+    }
+}
+
+fn record_run(rng: &mut Rng, run: usize, kind: &'static str) -> RunResult {
+    let nwriters = rng.range(2, 5) as usize;
+    let keys = ["k1", "k2", "k3"];
+    let mut scripts = Vec::new();
+    for i in 0..nwriters {
+        let ntx = rng.range(1, 4) as usize;
+        let plans: Vec<Plan> = (0..ntx).map(|_| random_plan(rng, &keys)).collect();
+        let abort_after: Vec<u8> = (0..ntx).map(|_| rng.below(12) as u8).collect();
+        scripts.push((format!("w{}", i + 1), plans, abort_after));
+    }
+    let workers = rng.range(2, 4) as usize;
+    let rt = tokio::runtime::Builder::new_multi_thread().worker_threads(workers).enable_all().build().expect("runtime");
+    let _ = verif::drain();
+    let out = rt.block_on(async move {
+        let db = Db::open(kind, run as u64).await;
+        let _ = verif::drain(); // hook events of nothing so far; be sure the log starts empty
+        emit(json!({"ev": "Reset", "run": run, "store": kind, "writers": nwriters}));
+        let store = db.store.clone();
+        let body = async {
+            let handles: Vec<_> = scripts
+                .into_iter()
+                .map(|(w, plans, abort_after)| tokio::spawn(writer(store.clone(), w, plans, abort_after)))
+                .collect();
+            let mut problems = Vec::new();
+            for h in handles {
+                match h.await {
+                    Ok(p) => problems.extend(p),
+                    Err(e) => problems.push(format!("writer task failed: {e}")),
+                }
+            }
+            // Every aborted transaction must let a later one start: one more transaction by the
+            // main task (no tokio task id) once everybody is through. It also waits for the
+            // spawned rollback tasks, so the log is complete when it returns.
+            emit(json!({"ev": "Spawn", "w": "main", "task": ""}));
+            match store.begin().await {
+                Ok(permit) => {
+                    emit(json!({"ev": "BeginRet", "w": "main", "t": 0}));
+                    if let Err(e) = store.rollback(permit).await {
+                        problems.push(format!("final rollback failed: {e}"));
+                    }
+                }
+                Err(e) => problems.push(format!("final begin failed: {e}")),
+            }
+            problems
+        };
+        let (problems, hung) = match tokio::time::timeout(WATCHDOG, body).await {
+            Ok(p) => (p, false),
+            Err(_) => (vec![], true),
+        };
+        let mut committed = 0;
+        let mut select_error = None;
+        if !hung {
+            match read_all(&db.store).await {
+                Ok((log, kv)) => {
+                    committed = log.len();
+                    emit(json!({"ev": "Final", "log": rows_json(&log), "kv": kv_json(&kv)}));
+                }
+                Err(e) => {
+                    // the committed data cannot even be read (e.g. the tables are gone)
+                    emit(json!({"ev": "Final", "log": [], "kv": {}, "select_error": e.to_string()}));
+                    select_error = Some(e.to_string());
+                }
+            }
+            db.close().await;
+        }
+        let problems = (problems, select_error);
+        (problems, hung, committed)
+    });
+    if out.1 {
+        // tasks may be stuck for good: do not wait for them
+        rt.shutdown_background();
+    }
+    let events = verif::drain()
+        .into_iter()
+        .map(|(seq, line)| {
+            let mut v: Value = serde_json::from_str(&line).unwrap_or_else(|_| json!({"ev": "unparsable", "line": line}));
+            v["seq"] = json!(seq);
+            v
+        })
+        .collect();
+    RunResult { events, problems: out.0.0, select_error: out.0.1, hung: out.1, committed: out.2 }
+}
+
+/// One hook event marks two protocol steps when the second follows without an await point
+/// (commit done -> permit released, rollback done -> permit released): the trace gets two lines.
+fn expand(ev: &Value) -> Vec<Value> {
+    let name = ev["ev"].as_str().unwrap_or("");
+    let with = |n: &str| {
+        let mut e = ev.clone();
+        e["ev"] = json!(n);
+        e["hook"] = json!(name);
+        e
+    };
+    match name {
+        "sqlite.acquired" => vec![with("Acquired")],
+        "sqlite.begin" => vec![with("Begin")],
+        "sqlite.commit.ok" => vec![with("Commit"), with("Release")],
+        // a failed COMMIT drops the sqlx transaction, which rolls it back
+        "sqlite.commit.err" | "sqlite.rollback.ok" | "sqlite.rollback.err" => vec![with("Rollback"), with("Release")],
+        "sqlite.auto_rollback.some" | "sqlite.auto_rollback.none" => vec![with("AutoRollback"), with("AutoRelease")],
+        // emitted after the release: carries no ordering information
+        "sqlite.auto_rollback.released" => vec![],
+        _ => vec![ev.clone()],
+    }
+}
+
+fn record(args: &Args) {
+    let mut rng = Rng::new(args.seed);
+    let n = if args.n > 0 { args.n } else { 100 };
+    let mut trace = TraceWriter::create(args.out.as_ref().expect("--out"));
+    let mut out = Outcome::new(
+        args,
+        "seeded random runs of 2-5 concurrent writers x 1-3 transactions (0-3 writes, 8 ways to end, random yields) on a \
+         multi-thread runtime against a real SQLite store (alternating in-memory / file-backed pool); evaluation = one run; \
+         non-trivial = a run with at least one committed and one aborted transaction; distinct by event sequence",
+    );
+    for run in 0..n {
+        let kind = if run % 2 == 0 { "memory" } else { "file" };
+        out.eval();
+        let r = record_run(&mut rng, run, kind);
+        if r.hung {
+            out.violation(
+                "C10",
+                "transactions-do-not-finish",
+                format!("writers / the final transaction did not finish within the {}s watchdog", WATCHDOG.as_secs()),
+                json!({"run": run, "store": kind, "events": r.events}),
+            );
+            continue;
+        }
+        if let Some(e) = &r.select_error {
+            out.violation(
+                "C10",
+                "committed-rows-unreadable",
+                format!("[{kind} pool] after all writers finished the committed rows cannot be read: {e}"),
+                json!({"run": run, "store": kind, "events": r.events}),
+            );
+        }
+        for p in &r.problems {
+            // an unexpected error of a store call is not a C10 verdict (the trace decides); make it visible
+            out.count("unexpected_store_errors");
+            eprintln!("run {run}: {p}");
+        }
+        let mut key = String::new();
+        let mut aborted = false;
+        for ev in &r.events {
+            let name = ev["ev"].as_str().unwrap_or("");
+            out.count(&format!("ev:{name}"));
+            if name.starts_with("sqlite.auto_rollback.some") || name.starts_with("sqlite.rollback") {
+                aborted = true;
+            }
+            key.push_str(&format!("{}{};", &name[name.len().min(7)..], ev["w"].as_str().unwrap_or("")));
+            for line in expand(ev) {
+                trace.event(line);
+            }
+        }
+        if r.committed > 0 && aborted {
+            out.mark_distinct(key);
+        }
+        if run < 2 {
+            out.sample(json!({"run": run, "store": kind, "events": r.events.len(), "committed_rows": r.committed}));
+        }
+    }
+    let (events, runs) = trace.finish();
+    out.set_trace(events, runs);
+    out.write(args);
+}
+
+// ==========================================================================================
+// replay: TLC schedules forced on a current-thread runtime
+// ==========================================================================================
+
+type Fut<T> = Pin<Box<dyn Future<Output = T>>>;
+
+#[derive(Default)]
+struct Control {
+    /// who is being polled by the harness right now
+    actor: String,
+    /// futures parked at a schedule point: (point, actor, release)
+    parked: Vec<(String, String, oneshot::Sender<()>)>,
+}
+
+static CONTROL: Mutex<Option<Control>> = Mutex::new(None);
+
+fn control<R>(f: impl FnOnce(&mut Control) -> R) -> R {
+    let mut g = CONTROL.lock().unwrap_or_else(|e| e.into_inner());
+    f(g.get_or_insert_with(Control::default))
+}
+
+fn install_controller() {
+    verif::set_async_controller(Some(Arc::new(|name: &'static str| {
+        let (tx, rx) = oneshot::channel::<()>();
+        control(|c| {
+            let actor = if name.starts_with("sqlite.auto_rollback") { "rb".to_string() } else { c.actor.clone() };
+            c.parked.push((name.to_string(), actor, tx));
+        });
+        let parked: verif::Parked = Box::pin(async move {
+            let _ = rx.await;
+        });
+        Some(parked)
+    })));
+}
+
+fn set_actor(a: &str) {
+    control(|c| c.actor = a.to_string());
+}
+
+fn is_parked(point: &str, actor: &str) -> bool {
+    control(|c| c.parked.iter().any(|(p, a, s)| p == point && a == actor && !s.is_canceled()))
+}
+
+fn count_parked(point: &str) -> usize {
+    control(|c| c.parked.iter().filter(|(p, _, s)| p == point && !s.is_canceled()).count())
+}
+
+/// Lets the future parked at (point, actor) continue.
+fn release(point: &str, actor: &str) -> bool {
+    control(|c| {
+        if let Some(i) = c.parked.iter().position(|(p, a, s)| p == point && a == actor && !s.is_canceled()) {
+            let (_, _, s) = c.parked.remove(i);
+            s.send(()).is_ok()
+        } else {
+            false
+        }
+    })
+}
+
+fn forget_cancelled() {
+    control(|c| c.parked.retain(|(_, _, s)| !s.is_canceled()));
+}
+
+#[derive(Debug)]
+enum Stop<T> {
+    Ready(T),
+    /// the stop condition (parked at a point / event seen) holds
+    Cond,
+    /// polled `max_polls` times, still pending and the condition does not hold
+    Pending,
+    Panicked(String),
+    Hung,
+}
+
+fn panic_text(e: Box<dyn std::any::Any + Send>) -> String {
+    if let Some(s) = e.downcast_ref::<&str>() {
+        s.to_string()
+    } else if let Some(s) = e.downcast_ref::<String>() {
+        s.clone()
+    } else {
+        "panic".into()
+    }
+}
+
+/// Polls `fut` by hand as `actor`, yielding to the runtime between polls (sqlx returns
+/// connections to the pool in spawned tasks), until it is ready, `cond` holds, or - if
+/// `max_polls` is given - it was polled that often.
+async fn drive<T>(actor: &str, fut: &mut Fut<T>, cond: impl Fn() -> bool, max_polls: Option<usize>) -> Stop<T> {
+    let start = Instant::now();
+    let mut polls = 0usize;
+    loop {
+        set_actor(actor);
+        let polled = PollOnce(fut.as_mut()).await;
+        set_actor("");
+        match polled {
+            Err(p) => return Stop::Panicked(p),
+            Ok(Poll::Ready(v)) => return Stop::Ready(v),
+            Ok(Poll::Pending) => {}
+        }
+        polls += 1;
+        if cond() {
+            return Stop::Cond;
+        }
+        if max_polls.is_some_and(|m| polls >= m) {
+            return Stop::Pending;
+        }
+        tokio::task::yield_now().await;
+        if polls % 32 == 0 {
+            std::thread::sleep(Duration::from_micros(200));
+        }
+        if start.elapsed() > WATCHDOG {
+            return Stop::Hung;
+        }
+    }
+}
+
+/// Future that polls the inner future exactly once with the caller's waker; a panic of the
+/// polled code is data.
+struct PollOnce<'a, T>(Pin<&'a mut (dyn Future<Output = T> + 'static)>);
+
+impl<T> Future for PollOnce<'_, T> {
+    type Output = Result<Poll<T>, String>;
+    fn poll(mut self: Pin<&mut Self>, cx: &mut std::task::Context<'_>) -> Poll<Self::Output> {
+        Poll::Ready(catch_unwind(AssertUnwindSafe(|| self.0.as_mut().poll(cx))).map_err(panic_text))
+    }
+}
+
+/// Lets spawned tasks run until `cond` holds.
+async fn settle(cond: impl Fn() -> bool) -> bool {
+    let start = Instant::now();
+    let mut n = 0usize;
+    while !cond() {
+        tokio::task::yield_now().await;
+        n += 1;
+        if n % 32 == 0 {
+            std::thread::sleep(Duration::from_micros(200));
+        }
+        if start.elapsed() > WATCHDOG {
+            return false;
+        }
+    }
+    true
+}
+
+enum WState {
+    Idle,
+    /// `begin()` called; pending on the semaphore or parked at `sqlite.begin.acquired`
+    Beginning(Fut<Result<TransactionPermit, SqliteError>>),
+    InTx(TransactionPermit),
+    /// `commit` / `rollback` parked before the permit is released
+    Ending(&'static str, Fut<Result<(), SqliteError>>),
+}
+
+struct Writer {
+    name: String,
+    state: WState,
+    t: i64,
+    j: i64,
+}
+
+const P_ACQUIRED: &str = "sqlite.begin.acquired";
+const P_COMMIT: &str = "sqlite.commit.done";
+const P_ROLLBACK: &str = "sqlite.rollback.done";
+const P_RB_START: &str = "sqlite.auto_rollback.start";
+const P_RB_DONE: &str = "sqlite.auto_rollback.done";
+
+fn begin_future(store: &SqliteStore) -> Fut<Result<TransactionPermit, SqliteError>> {
+    let s = store.clone();
+    Box::pin(async move { s.begin().await })
+}
+
+type Fail = (&'static str, String);
+
+fn rows_from_json(v: &Value) -> Vec<Row> {
+    v.as_array()
+        .map(|a| {
+            a.iter()
+                .map(|r| {
+                    (
+                        r["w"].as_str().unwrap_or("").to_string(),
+                        r["t"].as_i64().unwrap_or(-1),
+                        r["j"].as_i64().unwrap_or(-1),
+                        r["k"].as_str().unwrap_or("").to_string(),
+                    )
+                })
+                .collect()
+        })
+        .unwrap_or_default()
+}
+
+/// Executes one exported behaviour; `Err((signature, detail))` is a disagreement with the spec.
+async fn replay_behaviour(b: &Value, kind: &str, id: u64, counters: &mut BTreeMap<String, u64>) -> Result<(), Fail> {
+    // which of the two cancellation places each CancelAcquired step uses alternates with this
+    let variant = b.get("variant").and_then(|v| v.as_u64()).unwrap_or(id / 2) as usize;
+    let db = Db::open(kind, id).await;
+    let store = db.store.clone();
+    let _ = verif::drain();
+    control(|c| *c = Control::default());
+    let mut writers: BTreeMap<String, Writer> = BTreeMap::new();
+    let result = replay_steps(b, &store, &mut writers, counters, variant).await;
+    // clean up whatever the behaviour (or a failure) left behind: let every parked future go,
+    // drop all permits / futures, give spawned tasks the chance to finish
+    drop(writers);
+    loop {
+        let senders: Vec<_> = control(|c| c.parked.drain(..).collect());
+        if senders.is_empty() {
+            break;
+        }
+        for (_, _, s) in senders {
+            let _ = s.send(());
+        }
+        for _ in 0..8 {
+            tokio::task::yield_now().await;
+        }
+    }
+    if result.is_ok() {
+        // nothing may be left that keeps a later transaction from starting
+        let mut probe = begin_future(&store);
+        match drive("end", &mut probe, || is_parked(P_ACQUIRED, "end"), Some(200)).await {
+            Stop::Cond => {
+                drop(probe);
+                forget_cancelled();
+            }
+            other => {
+                return Err(("permit-not-available-at-the-end", format!("a begin() after the behaviour does not get the permit: {}", stop_name(&other))));
+            }
+        }
+    }
+    for _ in 0..4 {
+        tokio::task::yield_now().await;
+    }
+    db.close().await;
+    result
+}
+
+fn stop_name<T>(s: &Stop<T>) -> String {
+    match s {
+        Stop::Ready(_) => "returned".into(),
+        Stop::Cond => "condition reached".into(),
+        Stop::Pending => "still pending".into(),
+        Stop::Panicked(p) => format!("panicked: {p}"),
+        Stop::Hung => format!("no progress within the {}s watchdog", WATCHDOG.as_secs()),
+    }
+}
+
+/// Drives a rollback() future through its schedule point to the end.
+async fn release_when_parked(w: &str, fut: &mut Fut<Result<(), SqliteError>>) {
+    if let Stop::Cond = drive(w, fut, || is_parked(P_ROLLBACK, w), None).await {
+        release(P_ROLLBACK, w);
+        let _ = drive(w, fut, || false, None).await;
+    }
+}
+
+async fn replay_steps(
+    b: &Value,
+    store: &SqliteStore,
+    writers: &mut BTreeMap<String, Writer>,
+    counters: &mut BTreeMap<String, u64>,
+    variant: usize,
+) -> Result<(), Fail> {
+    let steps = b["steps"].as_array().expect("steps");
+    for (si, step) in steps.iter().enumerate() {
+        let a = step["a"].as_str().expect("a");
+        let w = step["w"].as_str().expect("w").to_string();
+        let after = &step["after"];
+        *counters.entry(format!("step:{a}")).or_insert(0) += 1;
+        let at = |what: &str| format!("step {si} {a}({w}): {what}");
+        let writer = writers.entry(w.clone()).or_insert_with(|| Writer { name: w.clone(), state: WState::Idle, t: 0, j: 0 });
+        match a {
+            "WantBegin" => {
+                let mut fut = begin_future(store);
+                let want_acquired = after["pc"][&w] == "acquired";
+                // no I/O happens before the permit is acquired: a few polls decide
+                let r = drive(&w, &mut fut, || is_parked(P_ACQUIRED, &w), Some(4)).await;
+                match (r, want_acquired) {
+                    (Stop::Cond, true) | (Stop::Pending, false) => {}
+                    (Stop::Cond, false) => return Err(("begin-acquires-while-permit-is-taken", at("begin() got the permit although the specification says it is taken"))),
+                    (Stop::Pending, true) => return Err(("begin-blocked-while-permit-is-free", at("begin() stays pending although the permit is free"))),
+                    (other, _) => return Err(("begin-misbehaves", at(&stop_name(&other)))),
+                }
+                writer.state = WState::Beginning(fut);
+                writer.j = 0;
+            }
+            "SetSlot" => {
+                let WState::Beginning(mut fut) = std::mem::replace(&mut writer.state, WState::Idle) else {
+                    return Err(("harness-out-of-sync", at("writer is not in begin()")));
+                };
+                if !release(P_ACQUIRED, &w) {
+                    return Err(("begin-not-at-acquired-point", at("begin() is not parked after acquiring the permit")));
+                }
+                match drive(&w, &mut fut, || false, None).await {
+                    Stop::Ready(Ok(permit)) => writer.state = WState::InTx(permit),
+                    Stop::Ready(Err(e)) => return Err(("begin-fails", at(&format!("begin() returned {e}")))),
+                    other => return Err(("begin-misbehaves", at(&stop_name(&other)))),
+                }
+            }
+            "CancelWaiting" => {
+                // dropping the future: tokio unlinks the waiter
+                writer.state = WState::Idle;
+                forget_cancelled();
+                writer.t += 1;
+            }
+            "CancelAcquired" => {
+                let WState::Beginning(mut fut) = std::mem::replace(&mut writer.state, WState::Idle) else {
+                    return Err(("harness-out-of-sync", at("writer is not in begin()")));
+                };
+                // places to cancel a begin() that holds the permit: right after the permit was
+                // acquired (parked at the schedule point), or 1..5 polls later, somewhere in the
+                // middle of `pool.begin()` (waiting for the connection, connection checked out and
+                // being tested, BEGIN in flight)
+                if (si + variant) % 3 != 0 {
+                    *counters.entry("cancel:inside-pool-begin".into()).or_insert(0) += 1;
+                    release(P_ACQUIRED, &w);
+                    match drive(&w, &mut fut, || false, Some(1 + (si + variant) % 5)).await {
+                        Stop::Pending => {}
+                        Stop::Ready(Ok(permit)) => {
+                            // it went through in a single poll: give the transaction back properly
+                            let s = store.clone();
+                            let mut rb: Fut<Result<(), SqliteError>> = Box::pin(async move { s.rollback(permit).await });
+                            release_when_parked(&w, &mut rb).await;
+                        }
+                        Stop::Ready(Err(e)) => return Err(("begin-fails", at(&format!("begin() returned {e}")))),
+                        other => return Err(("begin-misbehaves", at(&stop_name(&other)))),
+                    }
+                } else {
+                    *counters.entry("cancel:at-acquired-point".into()).or_insert(0) += 1;
+                }
+                drop(fut);
+                forget_cancelled();
+                writer.t += 1;
+            }
+            "TxWrite" => {
+                let k = step["k"].as_str().expect("k").to_string();
+                let (s, name, t, j) = (store.clone(), w.clone(), writer.t, writer.j);
+                let mut fut: Fut<Result<i64, SqliteError>> = Box::pin(async move { do_write(&s, &name, t, j, &k).await });
+                match drive(&w, &mut fut, || false, None).await {
+                    Stop::Ready(Ok(seen)) => {
+                        let expect = after["ndb"].as_i64().unwrap() + after["ndirty"].as_i64().unwrap();
+                        if seen != expect {
+                            return Err(("transaction-sees-wrong-rows", at(&format!("{seen} rows visible inside the transaction, specification says {expect}"))));
+                        }
+                    }
+                    Stop::Ready(Err(e)) => return Err(("write-fails", at(&format!("{e}")))),
+                    other => return Err(("write-misbehaves", at(&stop_name(&other)))),
+                }
+                writer.j += 1;
+            }
+            "TakeCommit" | "TakeRollback" => {
+                let WState::InTx(permit) = std::mem::replace(&mut writer.state, WState::Idle) else {
+                    return Err(("harness-out-of-sync", at("writer holds no permit")));
+                };
+                let s = store.clone();
+                let commit = a == "TakeCommit";
+                let point = if commit { P_COMMIT } else { P_ROLLBACK };
+                let mut fut: Fut<Result<(), SqliteError>> =
+                    Box::pin(async move { if commit { s.commit(permit).await } else { s.rollback(permit).await } });
+                match drive(&w, &mut fut, || is_parked(point, &w), None).await {
+                    Stop::Cond => writer.state = WState::Ending(point, fut),
+                    other => return Err(("commit-or-rollback-misbehaves", at(&stop_name(&other)))),
+                }
+            }
+            "ReleasePermit" => {
+                let WState::Ending(point, mut fut) = std::mem::replace(&mut writer.state, WState::Idle) else {
+                    return Err(("harness-out-of-sync", at("writer is not in commit / rollback")));
+                };
+                release(point, &w);
+                match drive(&w, &mut fut, || false, None).await {
+                    Stop::Ready(Ok(())) => {}
+                    Stop::Ready(Err(e)) => return Err(("commit-or-rollback-fails", at(&format!("{e}")))),
+                    other => return Err(("commit-or-rollback-misbehaves", at(&stop_name(&other)))),
+                }
+                writer.t += 1;
+            }
+            "DropPermit" => {
+                let WState::InTx(permit) = std::mem::replace(&mut writer.state, WState::Idle) else {
+                    return Err(("harness-out-of-sync", at("writer holds no permit")));
+                };
+                let why = step["why"].as_str().unwrap_or("drop");
+                *counters.entry(format!("drop:{why}")).or_insert(0) += 1;
+                match why {
+                    "error" => {
+                        // a failing statement, then what `?` does: leave the scope with the permit
+                        let s = store.clone();
+                        let mut fut: Fut<Result<(), SqliteError>> = Box::pin(async move { failing_statement(&s).await });
+                        match drive(&w, &mut fut, || false, None).await {
+                            Stop::Ready(Err(_)) => {}
+                            Stop::Ready(Ok(())) => return Err(("harness-out-of-sync", at("the failing statement succeeded"))),
+                            other => return Err(("write-misbehaves", at(&stop_name(&other)))),
+                        }
+                        drop(permit);
+                    }
+                    "panic" => {
+                        let _ = catch_unwind(AssertUnwindSafe(move || {
+                            let _permit = permit;
+                            panic!("writer panics inside its transaction");
+                        }));
+                    }
+                    "cancel" => {
+                        let mut fut: Fut<()> = Box::pin(async move {
+                            let _permit = permit;
+                            std::future::pending::<()>().await;
+                        });
+                        let _ = drive(&w, &mut fut, || false, Some(1)).await;
+                        drop(fut);
+                    }
+                    _ => drop(permit),
+                }
+                writer.t += 1;
+                // the spawned rollback task gets polled once and parks before doing anything
+                let n = after["rb_spawned"].as_u64().unwrap() as usize;
+                if !settle_for(|| count_parked(P_RB_START) >= n, 64).await {
+                    return Err(("rollback-task-not-spawned", at("no rollback task showed up after the permit was dropped")));
+                }
+            }
+            "RbTake" => {
+                if !release(P_RB_START, "rb") {
+                    return Err(("rollback-task-not-spawned", at("no rollback task is waiting to start")));
+                }
+                if !settle(|| is_parked(P_RB_DONE, "rb")).await {
+                    return Err(("rollback-task-does-not-finish", at("the rollback task never reached the point before releasing the permit")));
+                }
+            }
+            "RbRelease" => {
+                if !release(P_RB_DONE, "rb") {
+                    return Err(("rollback-task-not-spawned", at("no rollback task is waiting to release")));
+                }
+                let released = |evs: &[(u64, String)]| evs.iter().any(|(_, e)| e.contains("sqlite.auto_rollback.released"));
+                let start = Instant::now();
+                loop {
+                    if released(&verif::drain()) {
+                        break;
+                    }
+                    tokio::task::yield_now().await;
+                    if start.elapsed() > WATCHDOG {
+                        return Err(("rollback-task-does-not-finish", at("the rollback task never released the permit")));
+                    }
+                }
+            }
+            other => {
+                eprintln!("unknown action {other}");
+                std::process::exit(2);
+            }
+        }
+        let _ = writer.name.len();
+        check_state(store, writers, after, si, a, &w).await?;
+    }
+    // the final database
+    let expected = rows_from_json(&b["db"]);
+    match read_all(store).await {
+        Ok((log, kv)) => {
+            if log != expected {
+                return Err(("committed-rows-differ", format!("after the behaviour the log table holds {log:?}, specification says {expected:?}")));
+            }
+            if kv != lww(&expected) {
+                return Err(("committed-rows-differ", format!("after the behaviour the kv table holds {kv:?}, specification says {:?}", lww(&expected))));
+            }
+        }
+        Err(e) => return Err(("committed-rows-unreadable", format!("{e}"))),
+    }
+    Ok(())
+}
+
+/// `settle` with a bounded number of yields (for conditions that need no I/O).
+async fn settle_for(cond: impl Fn() -> bool, max_yields: usize) -> bool {
+    for _ in 0..max_yields {
+        if cond() {
+            return true;
+        }
+        tokio::task::yield_now().await;
+    }
+    cond()
+}
+
+/// After every step the implementation must be where the specification is.
+async fn check_state(
+    store: &SqliteStore,
+    writers: &mut BTreeMap<String, Writer>,
+    after: &Value,
+    si: usize,
+    a: &str,
+    w: &str,
+) -> Result<(), Fail> {
+    let at = |what: &str| format!("after step {si} {a}({w}): {what}");
+    // 1. every begin() in flight: parked behind the acquired permit iff the specification says
+    //    it has the permit; pending on the semaphore otherwise
+    for (name, writer) in writers.iter_mut() {
+        let pc = after["pc"][name].as_str().unwrap_or("?");
+        if let WState::Beginning(fut) = &mut writer.state {
+            let parked = is_parked(P_ACQUIRED, name);
+            let r = if parked { Stop::Cond } else { drive(name, fut, || is_parked(P_ACQUIRED, name), Some(4)).await };
+            match (r, pc) {
+                (Stop::Cond, "acquired") | (Stop::Pending, "waiting") => {}
+                (Stop::Cond, _) => return Err(("begin-acquires-while-permit-is-taken", at(&format!("begin() of {name} got the permit, specification says pc = {pc}")))),
+                (Stop::Pending, _) => return Err(("begin-blocked-while-permit-is-free", at(&format!("begin() of {name} is still pending, specification says pc = {pc}")))),
+                (other, _) => return Err(("begin-misbehaves", at(&format!("begin() of {name}: {}", stop_name(&other))))),
+            }
+        } else if pc == "waiting" || pc == "acquired" {
+            return Err(("harness-out-of-sync", at(&format!("{name} should be inside begin()"))));
+        }
+    }
+    // 2. rollback tasks
+    let (spawned, taken) = (after["rb_spawned"].as_u64().unwrap() as usize, after["rb_taken"].as_u64().unwrap() as usize);
+    if count_parked(P_RB_START) != spawned || count_parked(P_RB_DONE) != taken {
+        return Err((
+            "rollback-tasks-differ",
+            at(&format!("{} rollback task(s) waiting to start / {} waiting to release, specification says {spawned} / {taken}",
+                count_parked(P_RB_START), count_parked(P_RB_DONE))),
+        ));
+    }
+    // 3. the semaphore: a probe begin() acquires the permit iff the specification says it is free
+    let sem = after["sem"].as_i64().unwrap();
+    let mut probe = begin_future(store);
+    let r = drive("probe", &mut probe, || is_parked(P_ACQUIRED, "probe"), Some(4)).await;
+    drop(probe); // returns the permit / leaves the queue
+    forget_cancelled();
+    match (r, sem) {
+        (Stop::Cond, 1) | (Stop::Pending, 0) => {}
+        (Stop::Cond, _) => return Err(("permit-free-while-specification-says-taken", at("a probe begin() acquired the permit"))),
+        (Stop::Pending, _) => return Err(("permit-taken-while-specification-says-free", at("a probe begin() did not get the permit"))),
+        (other, _) => return Err(("begin-misbehaves", at(&format!("probe begin(): {}", stop_name(&other))))),
+    }
+    // handing the probe's permit back may have woken the head of the queue: it must be unaffected
+    // 4. committed rows, whenever no transaction is open (an in-memory pool has one connection)
+    if after["slot"] == "none" {
+        let expected = rows_from_json(&after["db"]);
+        let s = store.clone();
+        let mut fut: Fut<Result<(Vec<Row>, BTreeMap<String, (String, i64, i64)>), SqliteError>> = Box::pin(async move { read_all(&s).await });
+        match drive("reader", &mut fut, || false, None).await {
+            Stop::Ready(Ok((log, kv))) => {
+                if log != expected || kv != lww(&expected) {
+                    return Err(("committed-rows-differ", at(&format!("the database holds {log:?}, specification says {expected:?}"))));
+                }
+            }
+            Stop::Ready(Err(e)) => return Err(("committed-rows-unreadable", at(&format!("{e}")))),
+            other => return Err(("read-misbehaves", at(&stop_name(&other)))),
+        }
+    }
+    Ok(())
+}
+
+fn replay(args: &Args) {
+    let behaviours = read_ndjson(args.input.as_ref().expect("--in"));
+    let mut out = Outcome::new(
+        args,
+        "every TLC-exported schedule forced on the real SqliteStore (current-thread runtime, futures polled by hand, hook \
+         schedule points), alternating in-memory / file-backed pool; after every step: who holds / waits for the permit, \
+         rollback tasks, a probe begin(), committed rows; non-trivial = a schedule in which a begin() had to wait or a \
+         permit was dropped; distinct by schedule",
+    );
+    install_controller();
+    let rt = tokio::runtime::Builder::new_current_thread().enable_all().build().expect("runtime");
+    let mut counters: BTreeMap<String, u64> = BTreeMap::new();
+    for (i, b) in behaviours.iter().enumerate() {
+        if b["kind"].as_str() != Some("sqlitetx") {
+            eprintln!("unknown behaviour kind: {b}");
+            std::process::exit(2);
+        }
+        // a stored failing case carries the pool kind it failed with
+        let kind = b.get("store").and_then(|s| s.as_str()).map(|s| if s == "file" { "file" } else { "memory" })
+            .unwrap_or(if i % 2 == 0 { "memory" } else { "file" });
+        out.eval();
+        let steps = b["steps"].as_array().expect("steps");
+        if steps.iter().any(|s| s["a"] == "DropPermit" || s["after"]["pc"].as_object().is_some_and(|pc| pc.values().any(|v| v == "waiting"))) {
+            out.mark_distinct(b["steps"].to_string());
+        }
+        let r = rt.block_on(replay_behaviour(b, kind, i as u64, &mut counters));
+        match r {
+            Ok(()) => out.sample(json!({"store": kind, "steps": steps.len(), "db": b["db"]})),
+            Err((sig, detail)) => {
+                let mut case = b.clone();
+                case["store"] = json!(kind);
+                case["variant"] = json!(i / 2);
+                if sig == "harness-out-of-sync" {
+                    eprintln!("harness out of sync with the exported behaviour: {detail}");
+                    std::process::exit(2);
+                }
+                out.violation("C10", sig, format!("[{kind} pool] {detail}"), case);
+            }
+        }
+    }
+    verif::set_async_controller(None);
+    for (k, v) in counters {
+        out.count_by(&k, v);
+    }
+    out.write(args);
+}
+
